@@ -41,6 +41,7 @@ var swaps = map[string]map[string]string{
 	"pkg/cookies":              {"sync": "vsync", "sync/atomic": "vatomic"},
 	"pkg/middleware":           {"time": "vtime", "context": "vcontext"},
 	"pkg/header":               {"sync": "vsync", "sync/atomic": "vatomic"},
+	"pkg/sessions/redis":       {"sync": "vsync", "sync/atomic": "vatomic"},
 	"pkg/watcher":              {"github.com/fsnotify/fsnotify": "vfsnotify", "time": "vtime"},
 }
 
@@ -182,6 +183,12 @@ func main() {
 			delete(instrumentedFiles, rel)
 			return nil
 		}))
+	}
+	// x/sync/singleflight blocks joiners on a real WaitGroup: substituted wherever imports are substituted
+	for d := range swaps {
+		if _, has := swaps[d]["sync"]; has {
+			swaps[d]["golang.org/x/sync/singleflight"] = "vsingleflight"
+		}
 	}
 	dirs := make([]string, 0, len(swaps))
 	for d := range swaps {
